@@ -134,6 +134,7 @@ type World struct {
 	ForeignAcct sdk.Address    // genesis account whose recorded public key is ForeignKey's (it does not hash to the address)
 	ForeignKey  *Actor
 	StepAbs     *time.Time // scenario scripts: the time of the next block
+	EvidenceFor string     // scenario scripts: the next block carries double-sign evidence against this address
 	forceUnjail []string // validators whose jail expiry the block time was aimed at: they try to unjail in this block
 }
 
@@ -483,6 +484,21 @@ func (w *World) finishBeginSpec(e *Env, h int64, cp CurParams) *BeginSpec {
 			}
 		}
 	}
+	if w.EvidenceFor != "" && h >= 3 {
+		// scenario scripts: honest double-sign evidence against this validator, from the previous height, with the
+		// power Tendermint's set had for it then
+		a := w.EvidenceFor
+		w.EvidenceFor = ""
+		eh := h - 2
+		if vs := e.Chain.Vals[eh]; vs != nil {
+			for _, v := range vs.Validators {
+				if hx(v.Address) == a {
+					b.Evidence = append(b.Evidence, EvidSpec{Addr: a, Power: v.VotingPower, Height: eh, Time: e.Chain.Times[eh].Unix(), TimeNs: int64(e.Chain.Times[eh].Nanosecond()), Total: vs.TotalVotingPower()})
+				}
+			}
+		}
+		return b
+	}
 	if h >= 3 && w.R.Chance(w.P.EvidencePct) {
 		if ev := w.pickEvidence(h, cp); ev != nil {
 			b.Evidence = append(b.Evidence, *ev)
@@ -542,8 +558,17 @@ func (w *World) pickEvidence(h int64, cp CurParams) *EvidSpec {
 			continue
 		}
 		v := vs.Validators[w.R.Intn(vs.Size())]
+		if try < 4 && len(w.View().Burns) > 0 {
+			// prefer a validator that also has a burn queued for this BeginBlock (the order of the two settlements matters)
+			for _, cand := range vs.Validators {
+				if _, ok := w.View().Burns[hx(cand.Address)]; ok && w.R.Chance(70) {
+					v = cand
+					break
+				}
+			}
+		}
 		a := hx(v.Address)
-		if a == w.Anchor.AddrHex() {
+		if a == w.Anchor.AddrHex() || w.Reserved[a] {
 			continue
 		}
 		pw := v.VotingPower
@@ -593,6 +618,9 @@ func (w *World) extActions() (begin, end []ExtAction) {
 	v := w.View()
 	var valAddrs []string
 	for a := range v.Vals {
+		if w.Reserved[a] {
+			continue // a script is driving this validator
+		}
 		valAddrs = append(valAddrs, a)
 	}
 	sort.Strings(valAddrs)
